@@ -5,8 +5,8 @@
    Format numbers: 0 RGBA8, 2 RGBA5551, 3 RGB565, 4 RGBA4, 5 LA8, 7 L8, 8 A8 (listed_color_format), 12 ETC1, 13 ETC1A4.
    Every statement quantifies over the arithmetic mode m (Checked = overflow-checked build, Wrapping = release). *)
 From Coq Require Import List NArith ZArith Bool Lia.
-From Mila Require Import Lib.Bytes Lib.Machine Model.Pixel Model.PixelSpec Model.Etc1 Model.ColorFormat Proofs.TexFinite Proofs.PixelProofs
-  Proofs.Etc1Proofs Proofs.PaletteProofs Proofs.PixelAssembly Proofs.ColorFormatProofs.
+From Mila Require Import Lib.Bytes Lib.Machine Model.Pixel Model.PixelSpec Model.Etc1 Model.ColorFormat Model.PixelM Model.Etc1M Proofs.TexFinite Proofs.PixelProofs
+  Proofs.Etc1Proofs Proofs.PaletteProofs Proofs.PixelAssembly Proofs.ColorFormatProofs Proofs.PixelMProofs Proofs.ModeProofs Proofs.Etc1MProofs.
 Import ListNotations.
 Local Open Scope N_scope.
 
@@ -41,6 +41,18 @@ Proof. exact decode_pixel_data_size. Qed.
 Theorem C19_payload_size : forall fmt w h, listed_format fmt = true -> w mod 8 = 0 -> h mod 8 = 0 ->
   payload_size fmt w h = required_size fmt w h.
 Proof. exact payload_size_listed. Qed.
+
+(* ... where ctpk::read computes the size as (bpp * w as f32 * h as f32) as usize: payload_size_f32 is the integer model of
+   that binary32 product (round to nearest even at 24 significant bits, ModeProofs.v).  It equals the required size under the
+   EXPLICIT exactness hypothesis, which holds whenever w * h < 2^24 (in particular on the property's sizes, and for every
+   product that is a 24-bit number times a power of two); beyond it the two differ (C19_ex_payload_size_inexact, the
+   value executed on the real crate by the external review). *)
+Theorem C19_payload_size_f32 : forall fmt w h, listed_format fmt = true -> w mod 8 = 0 -> h mod 8 = 0 ->
+  round24 (bpp2 fmt * w * h) = bpp2 fmt * w * h -> payload_size_f32 fmt w h = required_size fmt w h.
+Proof. exact payload_size_f32_listed. Qed.
+Theorem C19_payload_size_f32_below_2p24 : forall fmt w h, listed_format fmt = true -> w mod 8 = 0 -> h mod 8 = 0 ->
+  w * h < 2 ^ 24 -> payload_size_f32 fmt w h = required_size fmt w h.
+Proof. exact payload_size_f32_pow2_bpp. Qed.
 
 (* ---- channels ---- *)
 (* every channel of every listed format lies within one quantisation step of the linear expansion of its
@@ -175,24 +187,68 @@ Theorem C19_palette_within_step : forall pal_data img w h,
 Proof. exact palette_pixel_ok. Qed.
 
 (* ---- the two build profiles ---- *)
-(* decode_pixel_data (all formats) and mila::decode give the same outcome in both modes for EVERY payload, as soon as
-   the byte count 4*w*h of the output fits the machine word (all u16 dimensions) *)
+(* the mode-free models take the mode only at the two size products; this theorem is about those.  That no OTHER machine
+   operation can overflow is not assumed but proved on the moded models below (the C19_moded theorems). *)
 Theorem C19_mode_independent : forall data w h, 4 * w < 2 ^ 64 -> 4 * (w * h) < 2 ^ 64 ->
   (forall fmt, decode_pixel_data Checked data w h fmt = decode_pixel_data Wrapping data w h fmt) /\
   (forall alpha, etc1_decode Checked data w h alpha = etc1_decode Wrapping data w h alpha).
 Proof. exact mode_independent_all. Qed.
 
-(* the RGB5A3 and palette models carry no mode because their machine arithmetic cannot overflow: the u16 products of
-   decode_rgb5a3_pixel fit for all 65 536 values; the usize sizes and indices of the CI8 path (u16 dimensions) stay
-   below the aligned area < 2^33 *)
-Theorem C19_mode_independent_rgb5a3 : forall v, v < 65536 -> Forall (fun p => p < 2 ^ 16) (rgb5a3_products v).
-Proof. exact rgb5a3_products_fit. Qed.
-Theorem C19_mode_independent_palette : forall w h, 1 <= w < 65536 -> 1 <= h < 65536 ->
-  let aw := align w 8 in let ah := align h 4 in
-  aw * ah < 2 ^ 33 /\
-  (forall i o, In (i, o) (b2s_pairs (N.to_nat aw) 8 4 (N.to_nat (aw * ah / 32))) -> N.of_nat i < aw * ah /\ N.of_nat o < aw * ah) /\
-  (forall r, r < h -> r * aw + w <= aw * ah).
-Proof. exact ci8_indices_fit. Qed.
+(* The MODED models (Model/PixelM.v) put EVERY machine operation of texture_decoder.rs, pixel_encodings.rs, texture_utils.rs
+   and the CI8 path of tpl.rs that can overflow its Rust type through the Machine monad with the mode: u32 / u16 / usize
+   additions, subtractions, multiplications (add_w / sub_w / mul_w at the width of the type), shifts (shl_m / shr_m: a shift
+   amount >= the width is the overflow), `as u8` truncations, table and slice indexing, divisions.  On byte payloads and
+   sizes whose output fits the machine word they return, in BOTH modes, exactly what the mode-free models of Model/Pixel.v
+   return - none of the operations overflows - so the theorems above transfer and the two build profiles cannot differ. *)
+(* decode_color on every value the tile walk can read: u32 (RGBA8), 24 bits (RGB8), u16, u8, the constant 0 (L4/A4) *)
+Theorem C19_moded_decode_color : forall m fmt v, v < elem_bound fmt -> decode_color_m m v fmt = Ok (decode_color v fmt).
+Proof. exact decode_color_m_ok. Qed.
+(* the whole raw decoder: output-index arithmetic, TILE_ORDER indexing, decode_color, the slice store; every format and payload *)
+Theorem C19_moded_raw : forall m data w h fmt, 4 * (w * h) < 2 ^ 64 -> wfb data ->
+  decode_rgba_pixels_m m data w h fmt = decode_rgba_pixels m data w h fmt.
+Proof. exact decode_rgba_pixels_m_ok. Qed.
+Theorem C19_moded_raw_mode_independent : forall data w h fmt, 4 * (w * h) < 2 ^ 64 -> wfb data ->
+  decode_rgba_pixels_m Checked data w h fmt = decode_rgba_pixels_m Wrapping data w h fmt.
+Proof. exact raw_moded_mode_independent. Qed.
+(* RGB5A3: the u16 multiplications and shifts of the decoder itself, all 65 536 values, both modes *)
+Theorem C19_moded_rgb5a3 : forall m v, v < 65536 -> decode_rgb5a3_pixel_m m v = Ok (decode_rgb5a3_pixel v).
+Proof. exact decode_rgb5a3_pixel_m_ok. Qed.
+Theorem C19_moded_rgb5a3_decode : forall m data, wfb data -> lenN data < 2 ^ 64 -> rgb5a3_decode_m m data = rgb5a3_decode data.
+Proof. exact rgb5a3_decode_m_ok. Qed.
+(* decode_indexed: index * 4 and real_index + 4 *)
+Theorem C19_moded_decode_indexed : forall m pal data, wfb data -> ci8_lookup_m m data pal = ci8_lookup data pal.
+Proof. exact ci8_lookup_m_ok. Qed.
+(* the CI8 path of Tpl::extract_textures: align, every index of block_to_sequential, crop's base_index + width, the lookups;
+   every image payload of bytes (visible indices valid or not), u16 dimensions *)
+Theorem C19_moded_palette : forall m pal_data img w h, w < 65536 -> h < 65536 ->
+  wfb pal_data -> lenN pal_data < 2 ^ 64 -> wfb img ->
+  tpl_ci8_image_m m pal_data img w h = tpl_ci8_image pal_data img w h.
+Proof. exact tpl_ci8_image_m_ok. Qed.
+Theorem C19_moded_palette_mode_independent : forall pal_data img w h, w < 65536 -> h < 65536 ->
+  wfb pal_data -> lenN pal_data < 2 ^ 64 -> wfb img ->
+  tpl_ci8_image_m Checked pal_data img w h = tpl_ci8_image_m Wrapping pal_data img w h.
+Proof. exact palette_moded_mode_independent. Qed.
+
+(* etc1.rs in the monad (Model/Etc1M.v): u64 shifts with constant and computed amounts, the u8 shifts of the colour expansion
+   and of `complement`, `* 0x11`, the i32 negation / addition of the modifier, texel coordinates, pixel positions, the
+   payload cursor, the tile counts; every payload, sides below 2^31 *)
+Theorem C19_moded_etc1_block_colors : forall m pixels, block_colors_m m pixels = Ok (block_colors pixels).
+Proof. exact block_colors_m_ok. Qed.
+Theorem C19_moded_etc1_texel : forall m pixels alphas c1 c2 px py, px < 4 -> py < 4 -> bytes3 c1 -> bytes3 c2 ->
+  texel_m m pixels alphas c1 c2 px py = Ok (texel pixels alphas c1 c2 px py).
+Proof. exact texel_m_ok. Qed.
+Theorem C19_moded_etc1 : forall m data w h alpha, w < 2 ^ 31 -> h < 2 ^ 31 -> lenN data < 2 ^ 63 ->
+  etc1_decode_pixels_m m data w h alpha = etc1_decode_pixels m data w h alpha.
+Proof. exact etc1_decode_pixels_m_ok. Qed.
+(* the moded public entry points (these are what `./check C19` compares with the implementation, in both modes and both
+   build profiles) equal the mode-free ones, hence every theorem of this file speaks about them; and the two modes agree *)
+Theorem C19_moded_decode_pixel_data : forall m data w h fmt, w < 2 ^ 31 -> h < 2 ^ 31 -> lenN data < 2 ^ 63 -> wfb data ->
+  decode_pixel_data_m m data w h fmt = decode_pixel_data m data w h fmt.
+Proof. exact decode_pixel_data_m_ok. Qed.
+Theorem C19_moded_mode_independent : forall data w h, w < 2 ^ 31 -> h < 2 ^ 31 -> lenN data < 2 ^ 63 -> wfb data ->
+  (forall fmt, decode_pixel_data_m Checked data w h fmt = decode_pixel_data_m Wrapping data w h fmt) /\
+  (forall alpha, etc1_decode_m Checked data w h alpha = etc1_decode_m Wrapping data w h alpha).
+Proof. exact moded_mode_independent. Qed.
 
 (* ---- the hypotheses are satisfiable ---- *)
 Example C19_ex_formats : forallb listed_format [0; 2; 3; 4; 5; 7; 8; 12; 13] = true /\ forallb listed_format [1; 6; 9; 10; 11; 14] = false.
@@ -206,6 +262,15 @@ Proof. split; [reflexivity|vm_compute; discriminate]. Qed.
 Definition ex_payload (n : nat) : bytes := map (fun i => N.of_nat (i * 37 + 11) mod 256) (seq 0 n).
 Example C19_ex_rgb565 : lenN (ex_payload 256) = bytes_per_element 3 * (16 * 8) /\
   is_ok (decode_pixel_data Checked (ex_payload 256) 16 8 3) = true.
+Proof. split; vm_compute; reflexivity. Qed.
+Example C19_ex_payload_size_inexact : payload_size_f32 7 65528 16392 = 1074135040 /\ payload_size 7 65528 16392 = 1074134976.
+Proof. exact payload_size_f32_inexact. Qed.
+Example C19_ex_payload_size_domain :
+  forallb (fun fmt => forallb (fun w => forallb (fun h => payload_size_f32 fmt w h =? payload_size fmt w h) [8; 16; 32; 64; 128])
+                                     [8; 16; 32; 64; 128]) [0; 2; 3; 4; 5; 7; 8; 12; 13] = true.
+Proof. exact payload_size_f32_domain. Qed.
+(* the moded model does notice an overflow where there is one: a u32 product outside the tile walk's values *)
+Example C19_ex_moded_detects : decode_color_m Checked (2 ^ 31) 10 = Panic POverflow /\ is_ok (decode_color_m Wrapping (2 ^ 31) 10) = true.
 Proof. split; vm_compute; reflexivity. Qed.
 (* a differential block with a negative delta is in range *)
 Example C19_ex_etc_block : etc1_in_range F15_BLOCK = true /\ etc1_diff F15_BLOCK = true /\ signed3 (field F15_BLOCK 56 3) = (-1)%Z.
